@@ -16,7 +16,7 @@ TEXT_CLASSES = ["RTFTitle", "RTFSubline", "RTFPageHeader", "RTFPageFooter"]
 def build(tier, seed):
     from .. import h_valid as hv
     quick = tier == "quick"
-    T = 120 if quick else 900
+    T = 240 if quick else 900
     obs = []
     tcls = ["RTFBody"] if quick else TABLE_CLASSES
     xcls = ["RTFTitle"] if quick else TEXT_CLASSES
